@@ -34,6 +34,11 @@ OMEN_Z = {'ngram': 3, 'alphabet': ['x', 'y'], 'ip': {'xx': 0, 'xy': 1, 'yx': 1, 
           'cp': {'xxx': 1, 'xxy': 0, 'xyx': 0, 'xyy': 2, 'yxx': 0, 'yxy': 1, 'yyx': 0, 'yyy': 1}, 'ln': [10, 10, 0, 1, 2],
           'keyspace': {1: 5, 2: 9, 3: 12}}
 
+# contexts with several next characters on ONE level: a quit can fall in the middle of such a group of final characters
+OMEN_W = {'ngram': 2, 'alphabet': ['x', 'y', 'z'], 'ip': {'x': 0, 'y': 0, 'z': 1}, 'ep': {},
+          'cp': {'xx': 0, 'xy': 0, 'xz': 0, 'yx': 1, 'yy': 1, 'zx': 0, 'zy': 0, 'zz': 2}, 'ln': [10, 0, 1],
+          'keyspace': {}}
+
 
 def omen(m, probs):
     d = dict(m)
@@ -61,6 +66,7 @@ def specs(tier):
     # a quit inside the first level owes the rest of it AND the later levels of the group
     add([('M', .5), ('D1', .5)], omen(OMEN_X, [(1, .25), (2, .25), (3, .125)]), 'levels 1 and 2 tied in one pre-terminal')
     add([('D1', .5), ('M', .5)], omen(OMEN_X, [(1, .5), (2, 0.0), (3, 0.0)]), 'levels 2 and 3 share probability 0.0, last pre-terminal')
+    add([('D1', .5), ('M', .5)], omen(OMEN_W, [(1, .5), (2, .25)]), 'several final characters on one level (groups of 2 and 3)')
     if tier == 'thorough':
         add([('M', .5), ('A1D1', .5)], omen(OMEN_Y, [(1, .25), (2, .0625)]), 'ngram2 three letters')
         add([('A1', .5), ('M', .25), ('D1D1', .25)], omen(OMEN_X, [(1, .5), (2, .25), (3, .125)]), 'three structures')
